@@ -627,6 +627,9 @@ m('insert-lowers-free-space-pointer-too-little', ['C15'], TP, """	tp.SetFreeSpac
 	tp.setTuple(slot, tuple)""", """	tp.SetFreeSpacePointer(tp.GetFreeSpacePointer() - tuple.Size() + 1)
 	tp.setTuple(slot, tuple)""", ['C15-R7 [TablePage.InsertTuple:free-space-pointer-lowered-by-tuple-size'])
 m('settuple-stores-size-as-offset', ['C15'], TP, """	tp.Copy(offsetTupleOffset+sizeTuple*slot, types.UInt32(fsp).Serialize())        // set tuple1 offset at slot""", """	tp.Copy(offsetTupleOffset+sizeTuple*slot, types.UInt32(tuple.Size()).Serialize())        // set tuple1 offset at slot""", ['C15-R7 [TablePage.setTuple:slot-describes-the-bytes]'])
+m('empty-log-restarts-lsn-counter', ['C20', 'C01'], SD, """			if lsnOnPages := greatestLSNOfTablePages(c, shi.bpm); lsnOnPages > 0 {
+				shi.GetLogManager().SetNextLSN(lsnOnPages + 1)""", """			if lsnOnPages := greatestLSNOfTablePages(c, shi.bpm); lsnOnPages > 0 {
+				shi.GetLogManager().SetNextLSN(greatestLSN + 1)""", ['C20-R5 [NewSamehadaDB:lsn-restored-from-pages-when-log-is-empty'])
 # drop the one that needs a helper that does not exist
 M = [x for x in M if x['id'] != 'insert-executor-unlocks-early']
 os.chdir(os.path.dirname(os.path.abspath(__file__)) + '/..')
